@@ -153,6 +153,11 @@ SIMPLE = [
     # the qualified names of what f defines (f itself is defined in a factory)
     S("nested-qualname", ["def {n1}(u):", "    return u", "class {N2}:", "    pass",
                           "{n3} = E({e1}, ({n1}.__qualname__, {N2}.__qualname__, (lambda: 0).__qualname__))"], cur=None, flags=["closure"], special=True),
+    # match statements: the names captured by patterns (sequence, star, mapping rest, as, bare capture, guard)
+    S("match-seq", ["match PAIR(E({e1}, {p})):", "    case ({n1}, {n2}):", "        {n3} = E({e2}, {n1})", "    case _:", "        {n3} = E({e3}, 0)"], cur="n3", special=True),
+    S("match-guard", ["match PAIR(E({e1}, {p})):", "    case ({n1}, {n2}) if E({e2}, {n1}) % 2:", "        {n3} = E({e3}, {n2})", "    case [{n1}, *{n2}]:", "        {n3} = E({e4}, {n1})"], cur="n3", special=True),
+    S("match-as", ["match E({e1}, {p}):", "    case 0 | 1 as {n1}:", "        {n2} = E({e2}, {n1})", "    case {n1}:", "        {n2} = E({e3}, {n1})"], cur="n2", special=True),
+    S("match-mapping", ["match DCT(E({e1}, {p})):", "    case {{**{n1}}}:", "        {n2} = E({e2}, len({n1}))"], cur="n2", special=True),
     S("mangled-read", "{n1} = E({e1}, K.__hid + {p})", cur="n1", flags=["inclass"], special=True),
     S("mangled-read-nested", "{n1} = E({e1}, K.__hid + {p})", cur="n1", flags=["inclass", "nested"], special=True),
     S("weird-eq", "{n1} = NOEQ(E({e1}, {p}))", special=True),
@@ -206,7 +211,8 @@ CORE3 = frozenset({"assign", "chain", "aug", "unpack-tuple", "unpack-star", "att
                    "yield-recv", "if", "if-else", "for", "for-else", "while", "try-except", "try-finally", "with",
                    "break", "continue", "del"})
 # the `odd` program set: every program contains at least one of ODD, the rest comes from ODD_BASE
-ODD = frozenset({"none-global-read", "weird-eq", "multiline-str", "mangled-read", "mangled-read-nested", "ann-raises", "nested-qualname", "sub-index-walrus", "default-walrus",
+ODD = frozenset({"none-global-read", "weird-eq", "multiline-str", "mangled-read", "mangled-read-nested", "ann-raises", "nested-qualname",
+                 "match-seq", "match-guard", "match-as", "match-mapping", "sub-index-walrus", "default-walrus",
                  "class-base-walrus", "lambda-walrus", "lambda-yield", "with-two-dep", "return-yield", "arg-yield", "assert-yield", "sub-index-yield",
                  "default-yield", "ann-yield", "attr-yield", "for-list-target", "with-list-target", "for-yield-iter",
                  "while-yield-test", "if-yield-test", "with-yield-item"})
